@@ -11,6 +11,7 @@ package server
 import (
 	"bytes"
 	"fmt"
+	"strings"
 	stdtime "time"
 
 	"github.com/tidwall/tile38/internal/vshim/vnet"
@@ -24,6 +25,10 @@ type c06SchedParams struct {
 	// AtRequest: the rewrite is started (and the exploration begins) at the moment the
 	// follower sends its request for the log, the last step of its handshake
 	AtRequest bool `json:"at_request,omitempty"`
+	// Big: the log exceeds one checksum window (512 KiB), so a reconnecting follower keeps
+	// its copy and asks for the log from a position > 0; the rewrite makes the log shorter
+	// than that position
+	Big bool `json:"big,omitempty"`
 }
 
 func init() { checks["c06sched"] = checkC06Sched }
@@ -38,6 +43,12 @@ func c06SchedRun(job *Job, p c06SchedParams, prefix []int) (out schedOut) {
 		}
 		lc.Do("DEL", "lk", "w0") // the rewrite makes the log shorter
 		lc.Do("SET", "lk", "w1", "POINT", "2", "2")
+		if p.Big {
+			big := strings.Repeat("0123456789", 30000)
+			lc.Do("SET", "lk", "big", "STRING", big+"a")
+			lc.Do("SET", "lk", "big", "STRING", big+"b")
+			lc.Do("SET", "lk", "big", "STRING", big+"c")
+		}
 		caught := func() bool { return F.S.fcupflags.Peek()&bitCaughtUp != 0 }
 		if p.Reconnect {
 			fc.Do("FOLLOW", "127.0.0.1", "9001")
@@ -152,10 +163,11 @@ func checkC06Sched(job *Job, res *Result) {
 		bound = int(b)
 	}
 	for _, p := range []c06SchedParams{{Name: "follow-vs-leader-shrink"}, {Name: "reconnect-vs-leader-shrink", Reconnect: true},
-		{Name: "log-request-vs-leader-shrink", AtRequest: true}, {Name: "reconnect-log-request-vs-leader-shrink", Reconnect: true, AtRequest: true}} {
+		{Name: "log-request-vs-leader-shrink", AtRequest: true}, {Name: "reconnect-log-request-vs-leader-shrink", Reconnect: true, AtRequest: true},
+		{Name: "big-reconnect-log-request-vs-leader-shrink", Reconnect: true, AtRequest: true, Big: true}} {
 		p := p
 		bound := bound
-		if p.AtRequest {
+		if p.AtRequest && !p.Big {
 			bound++ // a narrow window: few threads are active from the request on
 		}
 		sc := schedScenario{Name: "c06." + p.Name, Params: p, Run: func(prefix []int) schedOut { return c06SchedRun(job, p, prefix) }, DevBound: true}
